@@ -504,6 +504,38 @@ def run (j : Json) : Except String Json := do
     ("ref_left", jNat r.agenda.length), ("distinct", Json.bool (distinctTimes tmin r.seen))])
 end DrvSS
 
+/-! ### Gillespie_complex_contagion (C15) -/
+namespace DrvCC
+
+def getSt (s : String) : St := match s with | "I" => St.I | "R" => St.R | _ => St.S
+
+def run (j : Json) : Except String Json := do
+  let n ← getNat (← fld j "n")
+  let adj ← getList (getList getNat) (← fld j "adj")
+  let fam ← getStr (← fld j "family")
+  let tau ← getRat (← fld j "tau")
+  let gamma ← getRat (← fld j "gamma")
+  let k ← getNat (← fld j "k")
+  let ic ← getList getStr (← fld j "IC")
+  let ret ← getList getStr (← fld j "ret")
+  let tmin ← getRat (← fld j "tmin")
+  let tmax ← getERat (← fld j "tmax")
+  let tape ← getList getDraw (← fld j "tape")
+  let nodes := List.range n
+  let nbrs := listFn adj []
+  let rate := ComplexFam.rateOf fam nodes nbrs tau gamma k
+  let infl : (Node → St) → Node → List Node := fun _ u => ComplexFam.inflOf fam nodes nbrs u
+  let P : CCParams St := ⟨nodes, rate, ComplexFam.chooseOf fam, infl, ret.map getSt⟩
+  match (Complex.run P (fun u => getSt (ic.getD u "S")) tmin tmax 100000 1000) { tape := tape } with
+  | .error e => pure (errObj e)
+  | .ok (s, ts) =>
+    pure (Json.mkObj [("ok", Json.bool true), ("trace", Json.arr (ts.trace.map jCall)), ("unused", jNat ts.tape.length),
+      ("times", jArr jRat s.times.reverse), ("cols", jArr (fun c => jArr jInt c.reverse) s.data),
+      ("log", jArr (fun e => Json.arr #[jRat e.1, jNat e.2.1, jSt e.2.2]) s.log.reverse),
+      ("items", jArr jNat s.ld.items), ("weights", jArr (fun u => jRat (s.ld.getW u)) s.ld.items),
+      ("rates", jArr (fun u => jRat (P.rate s.status u)) nodes)])
+end DrvCC
+
 def dispatch (j : Json) : Except String Json := do
   let op ← getStr (← fld j "op")
   match op with
@@ -520,6 +552,7 @@ def dispatch (j : Json) : Except String Json := do
   | "esir" => DrvES.run j
   | "dsir" => DrvD.run j
   | "esis" => DrvSS.run j
+  | "complex" => DrvCC.run j
   | "reedfrost" => DrvD.reedfrost j
   | _ => .error s!"unknown op {op}"
 
